@@ -18,6 +18,15 @@ import re
 import vcommon as V
 from gen import vclgen, parsegen
 
+FLOAT_RE = re.compile(r'\(float "([0-9a-f]*)" (x[0-9a-f]{16})\)')
+
+
+def strip_bits(x):
+    """drop the IEEE bits of FLOAT nodes (the model does not carry the float value)"""
+    return FLOAT_RE.sub(r'(float "\1")', x) if "(float " in x else x
+
+INT_RE = re.compile(r'\(int (-?[0-9]+) "([0-9a-f]*)"\)')
+
 DIRECTED = [
     # if / else if / elseif / elsif chains
     ("vcl", 'sub vcl_recv { if (a) { esi; } }'),
@@ -170,6 +179,18 @@ def run(ctx):
         depth_hist[d] = depth_hist.get(d, 0) + 1
         toks, sexp, _ = eg.expression(d)
         cases.append(("expr", eg.render(toks).encode(), "gen-expr-d%d" % d, sexp, True, True))
+    # literal length / precision: every length up to well beyond the precision limit (independent exact conversion)
+    n_lit = 40000 if thorough else 3000
+    for label, text, sexp in parsegen.literal_length_cases(rng, n_lit) + parsegen.long_string_cases(rng):
+        cases.append(("expr", text.encode(), label, sexp if sexp is not None else "ERR", True, sexp is not None))
+    # parser state across nesting and sequence: compound constructs nested in each other, names from small pools
+    pg = parsegen.ProgGen(rng, eg)
+    n_nest = 20000 if thorough else 1200
+    for i in range(n_nest):
+        toks, sexp = pg.program(rng.choice([2, 3, 3, 4]))
+        cases.append(("vcl", eg.render(toks).encode(), "gen-nested-%d" % i, "0 " + sexp, True, True))
+    for j, src in enumerate(pg.nested_switch_shapes()):
+        cases.append(("vcl", src.encode(), "nested-switch-%d" % j, None, False, True))
     n_pairs = 0
     for label, text, sexp in parsegen.pair_cases():
         cases.append(("expr", text.encode(), label, sexp, True, True))
@@ -181,7 +202,8 @@ def run(ctx):
     err_kinds = {}
     streams = []       # (mode, token list, oracle) of inputs that parse, for the malformed stream (bounded sample)
     pool = {}
-    st = {"agree": 0, "intent_ok": 0, "grammar_ok": 0, "n_src": 0, "b_agree": 0, "n_mal": 0, "impl_s": 0.0, "model_s": 0.0}
+    st = {"agree": 0, "intent_ok": 0, "grammar_ok": 0, "n_src": 0, "b_agree": 0, "n_mal": 0, "impl_s": 0.0, "model_s": 0.0,
+          "float_nodes": 0, "int_nodes": 0}
     nontrivial = set()
     node_kinds = {}
     import hashlib
@@ -216,7 +238,27 @@ def run(ctx):
             if out.startswith("err"):
                 k = out.split(" ")[1]
                 err_kinds[k] = err_kinds.get(k, 0) + 1
-            if out != mr:
+            # literal-value oracle on EVERY tree the Go parser returns: the stored value of each FLOAT / INT node
+            # against an independent exact conversion of its source literal
+            if out.startswith("ok") and ("(float " in out or "(int " in out):
+                for lh, bits in FLOAT_RE.findall(out):
+                    st["float_nodes"] += 1
+                    exp = parsegen.ref_float_bits(bytes.fromhex(lh).decode("utf-8", "replace"))
+                    if exp != bits:
+                        ctx.violation("a FLOAT literal does not keep its exact (correctly rounded) value: %s stored as %s, exact %s (%s)"
+                                      % (bytes.fromhex(lh).decode("utf-8", "replace"), bits, exp, label),
+                                      {"mode": m, "source": s.decode("utf-8", "replace")[:600], "source_hex": s.hex()[:4000],
+                                       "literal": bytes.fromhex(lh).decode("utf-8", "replace"), "stored_bits": bits, "exact_bits": exp})
+                        break
+                for v, lh in INT_RE.findall(out):
+                    st["int_nodes"] += 1
+                    lit = bytes.fromhex(lh).decode("utf-8", "replace")
+                    if int(v) != parsegen.ref_int(lit, False) and not (int(v) == -2 ** 63 and parsegen.ref_int(lit, True) == -2 ** 63):
+                        ctx.violation("an INT literal does not keep its exact value: %s stored as %s (%s)" % (lit, v, label),
+                                      {"mode": m, "source": s.decode("utf-8", "replace")[:600], "literal": lit, "stored": v})
+                        break
+            outm = strip_bits(out)      # the model does not carry the float value
+            if outm != mr:
                 ctx.violation("parse result differs between parser/*.go and Model/Parse*.v on %s" % label,
                               {"mode": m, "source_hex": s.hex()[:4000], "source": s[:300].decode("utf-8", "replace"),
                                "tokens": toks[:3000], "impl": out[:2000], "model": (mr or "")[:2000]})
@@ -250,7 +292,7 @@ def run(ctx):
                 if intent == "ERR":
                     good = out.startswith("err")
                 else:
-                    good = (out == "ok %s 0" % intent)
+                    good = (out == ("ok %s 0" % intent if m == "expr" else "ok %s" % intent))
                 if good:
                     st["intent_ok"] += 1
                 else:
@@ -309,7 +351,7 @@ def run(ctx):
             if out.startswith("err"):
                 k = out.split(" ")[1]
                 err_kinds[k] = err_kinds.get(k, 0) + 1
-            if out != mr:
+            if strip_bits(out) != mr:
                 ctx.violation("parse result on a malformed token stream (%s) differs between parser/*.go and Model/Parse*.v" % kind,
                               {"mode": m, "tokens": toks[:4000], "impl": out[:2000], "model": (mr or "")[:2000]})
             else:
@@ -337,6 +379,8 @@ def run(ctx):
         "sources": st["n_src"], "sources_agree": st["agree"], "source_outcomes": outcomes,
         "with_intended_tree": n_intent, "intended_tree_matches": st["intent_ok"],
         "grammar_programs": n_grammar, "grammar_programs_accepted": st["grammar_ok"],
+        "float_nodes_checked_against_exact_conversion": st["float_nodes"], "int_nodes_checked": st["int_nodes"],
+        "nested_program_stats": dict(sorted(pg.stats.items())),
         "seconds_in_go_parser": round(st["impl_s"], 1), "seconds_in_extracted_model": round(st["model_s"], 1),
         "operator_pair_cases": n_pairs, "operator_pairs_exhaustive": True,
         "expression_depth_histogram": dict(sorted(depth_hist.items())),
